@@ -16,9 +16,18 @@ def family_of(pid, name):
 
 
 def _run_task(t):
-    if isinstance(t, vc.Case):
-        return vc.run_case(t)
-    return t()
+    """a task that crashes is an 'error' record (checker crash for that obligation), never a violation"""
+    import traceback
+    try:
+        if isinstance(t, vc.Case):
+            return vc.run_case(t)
+        return t()
+    except Exception as e:
+        from .pyvc.sym import Unsupported
+        name = getattr(t, "name", None) or getattr(t, "__name__", "task")
+        if isinstance(e, (Unsupported, NameError)):
+            return [(f"{name}:interp", "unknown", "pyvc", 0.0, f"unsupported / structure drift: {type(e).__name__}: {e}", None, None)], {}
+        return [(f"{name}:interp", "error", "pyvc", 0.0, traceback.format_exc()[-1200:], None, None)], {}
 
 
 def run(ctx: core.Ctx, tasks, procs=None, label=""):
@@ -58,11 +67,12 @@ def run(ctx: core.Ctx, tasks, procs=None, label=""):
                     raise core.CheckerError(f"{name}: the symbolic interpreter reports a violation that the real function does not show "
                                             f"on the same input (interpreter unsound here): {cex}")
             elif status == "error":
-                raise core.CheckerError(f"{name}: {info}")
+                ctx.record(fam, UNKNOWN, {"obligation": name, "error": info[-300:]}, dt)
+                ctx.errors.append(f"{name}: {info[-600:]}")
             else:
                 ctx.record(fam, UNKNOWN, {"obligation": name, "info": info}, dt)
                 ctx.undecide(fam, f"{name}: {info}")
-    if canaries["failed"]:
+    if canaries["failed"] and not ctx.violations and not ctx.errors:
         raise core.CheckerError("canary not refuted (the VC generator would accept a false postcondition): " + "; ".join(canaries["failed"][:3]))
     ctx.extra.setdefault("sym_phase_wall_s", {})[label or f"phase{len(ctx.extra.get('sym_phase_wall_s', {}))}"] = round(time.time() - t0, 2)
 
@@ -77,3 +87,36 @@ PYVC_ASSUMPTIONS = [
     "termination is not proved beyond the loop unwinding assertions",
 ]
 PYVC_TRUST = ["pyvc symbolic interpreter + VC generator (hv/pyvc)", "ANF normal form back end (hv/pyvc/expr.py)", "z3 5.1 (python API)", "cvc5 1.0.3 (/usr/bin/cvc5) on z3 'unknown'"]
+
+
+def purity(ctx, fns, family_name, allow=()):
+    """Frame obligation on the real AST: the functions under contract neither read nor write module-level MUTABLE state
+    (their result is a function of their arguments).  Global names they load must resolve to modules, functions, classes or
+    immutable constants."""
+    import ast, inspect, textwrap, types, builtins
+    import numpy as np
+    fam = ctx.family(family_name, core.GROUND, "ast", "functions under contract use no module-level mutable state and no global/nonlocal statements")
+    fam.exhaustive = True
+    immut = (int, float, complex, str, bytes, bool, type(None), tuple, frozenset, types.ModuleType, types.FunctionType, types.BuiltinFunctionType, type, np.dtype)
+    for fn in fns:
+        f = getattr(fn, "__func__", fn)
+        try:
+            tree = ast.parse(textwrap.dedent(inspect.getsource(f)))
+        except Exception as e:
+            ctx.record(fam, core.UNKNOWN)
+            ctx.undecide(fam, f"cannot read source of {f}: {e}")
+            continue
+        bad = []
+        for node in ast.walk(tree):
+            if isinstance(node, (ast.Global, ast.Nonlocal)) and not isinstance(node, ast.Nonlocal):
+                bad.append("global " + ",".join(node.names))
+            if isinstance(node, ast.Name) and node.id in f.__globals__ and node.id not in allow:
+                v = f.__globals__[node.id]
+                if not isinstance(v, immut) and not (hasattr(v, "__origin__") or type(v).__module__ == "typing"):
+                    bad.append(f"{node.id} ({type(v).__name__})")
+        ok = not bad
+        ctx.record(fam, core.PROVED if ok else core.REFUTED, {"function": f.__qualname__})
+        if not ok:
+            ctx.violate(fam, f"purity:{f.__module__}.{f.__qualname__}:{sorted(set(bad))}",
+                        f"{f.__module__}.{f.__qualname__} depends on module-level mutable state: {sorted(set(bad))} - its result is no longer a function of its arguments",
+                        {"function": f.__qualname__, "state": sorted(set(bad))}, has_input=False)
